@@ -345,6 +345,28 @@ theorem int_import_exact (min max i : Int) (hwf : (DType.int (F := F) min max).W
   have hv : Valid (.int min max : DType F) (.int i) := by simpa [Valid, Spec.C01.InSetG] using h
   exact ⟨(int_rt (F := F) hwf hv).1, rfl⟩
 
+/-- the whole `change` of an integer parameter in the model that the correspondence run compares with the code
+(`writeTrace`: client export, node import, `validate(value, previous)`, the write wrapper's validation, the driver — echoing
+its argument or answering `r` inside the limits —, validation and export of the answer, the client's import): the driver
+gets the caller's integer itself and the cache holds the answer itself, whatever their size and whatever the parameter
+held before -/
+theorem int_write_validated (min max i : Int) (hwf : (DType.int (F := F) min max).WF) (h : min ≤ i ∧ i ≤ max)
+    (prev : Option (PVal F)) (ret : Option Int) (hret : ∀ r, ret = some r → min ≤ r ∧ r ≤ max) :
+    writeTrace (.int min max : DType F) (.int min max) prev (.int i) (ret.map .int) =
+      some ⟨.int i, .int (ret.getD i)⟩ := by
+  have hwf' := hwf
+  simp only [DType.WF] at hwf'
+  obtain ⟨y, hy⟩ := WireLaws.ofInt_inRange (F := F) i (by omega) (by omega)
+  cases ret with
+  | none =>
+    simp [writeTrace, exportValue, intExport, nodeAccept, acceptWire, importValue, call, validate, conv, PVal.ofJVal,
+      intCall, intValidate, hy, Except.map, nodeAnswer, h]
+  | some r =>
+    have hr := hret r rfl
+    obtain ⟨z, hz⟩ := WireLaws.ofInt_inRange (F := F) r (by omega) (by omega)
+    simp [writeTrace, exportValue, intExport, nodeAccept, acceptWire, importValue, call, validate, conv, PVal.ofJVal,
+      intCall, intValidate, hy, hz, Except.map, nodeAnswer, h, hr]
+
 /-- the monitor of the second sentence decides `WriteMirrors` for the observed driver call and answer -/
 theorem writeOkB_iff {V : Type} (eqb : V → V → Bool) (drv : V → V) (v v' : V) (entry : Option (Item V)) :
     writeOkB eqb v [v'] (drv v') entry = true ↔
@@ -562,6 +584,12 @@ example : (run srcTables exMaps exImp exBehave2 {} exEvs2).calls.map (·.reg.cb)
 
 example : Mirrors srcTables exMaps exImp exBehave2 [] [] (history srcTables exMaps exImp exBehave2 {} exEvs2) :=
   (callbacks_once_in_order tables_ok exMaps exImp exBehave2 {} exEvs2 (by simp [KeysNodup])).1
+
+/-- `int_write_validated` on the 64 bit counter: 2^53+1 written over a stored 5, the driver answering 2^63+1 -/
+example : writeTrace exIntDt exIntDt (some (.int 5)) (.int 9007199254740993) ((some 9223372036854775809).map .int) =
+    some ⟨.int 9007199254740993, .int 9223372036854775809⟩ :=
+  int_write_validated 0 18446744073709551615 9007199254740993 exIntDt_wf (by decide) _ (some 9223372036854775809)
+    (fun r hr => by cases hr; decide)
 
 end example_
 
